@@ -268,6 +268,10 @@ func (g *Gen) fill(kind string, p *Program) Op {
 				if g.R.P(1, 3) {
 					op.I[2] = 3
 				}
+				if g.R.P(1, 3) {
+					// one whole Write call refused, the others accepted
+					op.I[2], op.I[3] = 4, int64(g.R.Range(1, 3))
+				}
 			}
 		}
 	case "UnmarshalJSON":
